@@ -485,6 +485,9 @@ public:
     // const access (the model has one iterator type; const-correctness of the library is checked by the real compiler)
     iterator begin() const { return iterator(const_cast<list*>(this), m_pool[0].next); }
     iterator end() const { return iterator(const_cast<list*>(this), 0); }
+    using const_iterator = iterator;
+    iterator cbegin() const { return begin(); }
+    iterator cend() const { return end(); }
     const T& back() const
     {
         __vf_check(m_size != 0, VF_LIST_BACK_EMPTY);
@@ -811,6 +814,9 @@ public:
     size_t   count(const K& k) { return find(k) != end() ? 1 : 0; }
     iterator end() const { return iterator(const_cast<unordered_map*>(this), __vf_npos); }
     iterator begin() const { return const_cast<unordered_map*>(this)->begin(); }
+    using const_iterator = iterator;
+    iterator cbegin() const { return begin(); }
+    iterator cend() const { return end(); }
     iterator find(const K& k) const { return const_cast<unordered_map*>(this)->find(k); }
     size_t   count(const K& k) const { return const_cast<unordered_map*>(this)->count(k); }
     V&     at(const K& k)
@@ -1001,6 +1007,9 @@ public:
 
     iterator begin() const { return iterator(const_cast<__ordered_tab*>(this), m_first); }
     iterator end() const { return iterator(const_cast<__ordered_tab*>(this), __vf_npos); }
+    using const_iterator = iterator;
+    iterator cbegin() const { return begin(); }
+    iterator cend() const { return end(); }
     iterator find(const K& k) const { return const_cast<__ordered_tab*>(this)->find(k); }
     size_t   count(const K& k) const { return const_cast<__ordered_tab*>(this)->count(k); }
     size_t count(const K& k)
